@@ -44,7 +44,7 @@ def run(ctx):
             # a batch that does not fill a whole number of internal blocks (e.g. 4 rows per block with memory_size="1k")
             [call("fit_transform", [1, 2, 3, 4, 2, 1, 3]), call("transform", [1, 2, 3, 4, 2, 1, 3])]]
     jobs = []
-    per = ctx.pick(2, 12)
+    per = ctx.pick(2, 7)
     import os
     only = os.environ.get("VERIF_ADAPTERS")
     for name, cls in sorted(all_adapters().items()):
